@@ -173,6 +173,9 @@ func init() {
 			for _, s := range gen.ScopeExit() {
 				do(s)
 			}
+			for _, s := range gen.CollidingNames() {
+				do(s)
+			}
 			for _, s := range gen.ChildAsField() {
 				do(s)
 			}
